@@ -4,6 +4,7 @@ import IppModel.Props.C13
 #print axioms Ipp.Props.C13.dec_digits
 #print axioms Ipp.Props.C13.canon_authority_clean
 #print axioms Ipp.Props.C13.canon_shape
+#print axioms Ipp.Props.C13.built_path_same
 #print axioms Ipp.Props.C13.fallback_only_without_authority
 #print axioms Ipp.Props.C13.parse_dec
 #print axioms Ipp.Props.C13.idempotent
